@@ -480,6 +480,12 @@ def make_interior_kept(job, g):
 
     ok = add_coordinates(job, g, {"coord_modes": ["res"]}, force_res=[a])
     job["interior_kept"] = ok
+    if ok and g.random() < 0.5:
+        # a (very loose, always satisfiable) distance restraint from a build file: the growth order of the molecule is
+        # worked out before the walk starts
+        n = i + j + k
+        job["build_spec"] = [{"mol": mt["name"], "from": 0, "to": sum(c for _n, c in spec["molecules"]),
+                              "items": [{"kind": "dist", "a": 0, "b": n - 1, "d": 1.0, "tol": 60.0}]}]
     return ok
 
 
@@ -588,3 +594,52 @@ def add_list_order(job, g):
             done = True
     job["list_order"] = done
     return done
+
+
+def make_large_system(job, g):
+    """> 5000 positioned single-residue molecules (supplied with -c on a lattice that fills 3/4 of the box) plus a few
+    short chains to be built in the empty quarter: the neighbour engine opens a second search tree for the first start"""
+    from oracles.final_state import write_gro_text
+    spec = job["spec"]
+    at = spec["atypes"][0]["name"]
+    spec["restypes"] = {"SV": {"name": "SV", "atoms": [{"name": "W", "atype": at}], "bonds": [], "constraints": [],
+                               "angles": [], "vsites": [], "blen": 0.3},
+                        "RA": {"name": "RA", "atoms": [{"name": "A1", "atype": at}, {"name": "A2", "atype": at}],
+                               "bonds": [[0, 1, 0.3, 5000]], "constraints": [], "angles": [], "vsites": [], "blen": 0.3}}
+    nsol = g.randint(5001, 5030)
+    nch = g.randint(2, 4)
+    lch = g.randint(3, 5)
+    spec["moltypes"] = [{"name": "SOLV", "shape": "single", "residues": ["SV"], "edges": [], "nrexcl": 1},
+                        {"name": "CH", "shape": "linear", "residues": ["RA"] * lch, "edges": [[k, k + 1] for k in range(lch - 1)],
+                         "nrexcl": 1}]
+    spec["molecules"] = [["SOLV", nsol], ["CH", nch]]
+    spec["split_files"] = False
+    spec["with_mass"] = True
+    spacing = 0.55
+    nx = 19
+    L = round(nx * spacing + 0.05, 3)
+    pts = []
+    for i in range(nx):
+        if i * spacing > 0.72 * L:
+            break
+        for j in range(nx):
+            for k in range(nx):
+                pts.append((round(0.1 + i * spacing, 3), round(0.1 + j * spacing, 3), round(0.1 + k * spacing, 3)))
+    if len(pts) < nsol:
+        return False
+    g.shuffle(pts)
+    lines = [(1, "SV", "W") + pts[i] for i in range(nsol)]
+    job["opts"] = {"nrewind": g.choice([1, 2, 3]), "maxiter": g.choice([1, 2, 800])}
+    job["coord_text"] = write_gro_text("verif large", lines, [L, L, L])
+    job["coord_kind"] = "mol"
+    job["coord_box"] = [L, L, L]
+    job["coord_mode"] = "prefix"
+    job["supplied_atoms"] = {str(i): list(pts[i]) for i in range(0, nsol, 97)}      # a sample is compared
+    job["supplied_centres"] = {}
+    job["expected_built"] = [[nsol + c, r + 1] for c in range(nch) for r in range(lch)]
+    job["ignored_instances"] = []
+    # the first start of each chain is accepted, then steps fail: attempts are abandoned and retried
+    job["tape"] = {"step": [g.choice([0, 1, 1]) for _ in range(6 * nch)] + [0] * 5}
+    job["large_system"] = True
+    job["dilute"] = False
+    return True
